@@ -463,6 +463,7 @@ pub fn run_cluster(sc: &Scenario, prop: &str) -> Result<RunResult, String> {
             },
             Ev::ClockJump { node, delta_ms, .. } => {
                 *cl.clock_jumps.borrow_mut().entry(*node).or_insert(0) += delta_ms;
+                *cl.shared.borrow_mut().clock_jump_count.entry(*node).or_insert(0) += 1;
                 out.fault(if *delta_ms < 0 { "clock_jump_backwards" } else { "clock_jump_forwards" });
             },
         }
@@ -831,6 +832,36 @@ pub fn judge_convergence(r: &mut RunResult) {
     for (n, diffs) in r.read_diffs.clone() {
         if !diffs.is_empty() {
             r.out.violate("C01/read-through-handle-differs-from-store", format!("node {n}: {}", diffs.iter().take(4).cloned().collect::<Vec<_>>().join("; ")));
+        }
+    }
+    // an acknowledged operation that left no write of its own on its issuer although the issuer's
+    // row for the id was older than the issuer's wall clock (so older than the operation): the
+    // operation is part of "all operations issued", and whatever the cluster ends with for that id
+    // cannot be older than it
+    for o in r.ops.clone() {
+        let acked = o.result.as_deref().map(|x| x == "ok" || x.starts_with("consistency:")).unwrap_or(false);
+        if !acked {
+            continue;
+        }
+        for (id, wall_lo) in &o.lost_on_issuer {
+            for (n, rows) in &r.final_rows {
+                let newest = rows.get(&(o.spec.ks.clone(), *id)).map(|(t, _)| t.datacake_timestamp().as_millis() as u64);
+                if newest.map(|t| t < *wall_lo).unwrap_or(false) {
+                    r.out.violate(
+                        "C01/acknowledged-operation-applied-nowhere",
+                        format!(
+                            "op#{} ({} {} id {id} on node {}) returned {:?} with the issuer's clock at >= {wall_lo} ms, wrote nothing on its issuer, and node {n} ends with {:?} for the id - older than the operation",
+                            o.op_id,
+                            o.spec.kind,
+                            o.spec.ks,
+                            o.node,
+                            o.result,
+                            rows.get(&(o.spec.ks.clone(), *id)).map(|(t, d)| (fmt_ts(*t), d.is_some()))
+                        ),
+                    );
+                    break;
+                }
+            }
         }
     }
     let want = lww(&r.issued);
